@@ -192,6 +192,33 @@ def r2_no_masking_constructs(ctx):
             else:
                 bad.append((c_, f"{hof}(...) drives {callee.name}: an exception of type StopIteration raised by a model would silently end the iteration instead of failing the run"))
         ctx.check(not bad, f"{f.qual}#masking", "no masking construct" if not bad else bad[0][1], where=f, node=bad[0][0] if bad else f.node)
+    # decorators of the package applied to a spine function wrap the WHOLE function: a handler in the
+    # wrapper around the call of the wrapped function sees every model error; it must re-raise that
+    # very exception (bare `raise` / `raise <bound name>`), never a new one
+    n_dec = 0
+    for f in sp:
+        for d in f.decorators:
+            try:
+                tgt = ctx.repo.resolve_name(f.module, d.split("(")[0].split(".")[0]) if "." not in d.split("(")[0] else ctx.repo.resolve_dotted(d.split("(")[0])
+            except Exception:
+                tgt = None
+            if not isinstance(tgt, FuncInfo) or tgt.module.name.split(".")[0] != "pyxel":
+                continue
+            n_dec += 1
+            wrapped = set(tgt.params)
+            bad = None
+            for w in [x for x in ast.walk(tgt.node) if isinstance(x, (ast.FunctionDef, ast.AsyncFunctionDef)) and x is not tgt.node]:
+                for t in [x for x in ast.walk(w) if isinstance(x, ast.Try)]:
+                    calls_wrapped = any(isinstance(c, ast.Call) and isinstance(c.func, ast.Name) and c.func.id in wrapped for s_ in t.body for c in ast.walk(s_))
+                    if not calls_wrapped:
+                        continue
+                    for h in t.handlers:
+                        raises = [x for x in ast.walk(ast.Module(body=h.body, type_ignores=[])) if isinstance(x, ast.Raise)]
+                        same = ends_in_raise(h.body) and all(r.exc is None or (isinstance(r.exc, ast.Name) and r.exc.id == h.name) for r in raises)
+                        if not same:
+                            bad = h
+            ctx.check(bad is None, f"{f.qual}#decorator:{d}", f"decorator {d} lets the wrapped function's exceptions through unchanged" if bad is None else f"decorator `{d}` wraps the whole function in a handler for {norm(bad.type) if bad.type is not None else 'everything'} that does not re-raise the caught exception itself: a model error of that type loses its message, type and notes", where=tgt, node=bad if bad is not None else tgt.node)
+    ctx.note(f"decorators of the package on spine functions: {n_dec}")
     # dask: results must be computed by the caller (lazy arrays re-raise at compute); nothing on the
     # spine may pre-compute inside a handler-protected region: covered by R1.
 
@@ -322,6 +349,12 @@ def r4_no_result_on_failure(ctx):
     for c in rs:
         tries = [a for a in ancestors(c) if isinstance(a, ast.Try)]
         ctx.check(not tries, f.qual + "#no-handler", "no handler around the runs: the first failure propagates" if not tries else "a try statement wraps the sequential runs (later runs could start / partial results be returned)", where=f, node=tries[0] if tries else c)
+    # "runs that had not started are not executed": the runs are CALLED where they stand - a run handed as a
+    # value to an executor / pool / delayed wrapper is queued, and queued runs still execute after a failure
+    from sa.index import parent as _parent
+
+    deferred = [n for n in ast.walk(f.node) if isinstance(n, ast.Attribute) and n.attr == "_run_single_pipeline" and not (isinstance(_parent(n), ast.Call) and _parent(n).func is n)]
+    ctx.check(not deferred, f.qual + "#called-in-place", "every run is a direct call" if not deferred else f"_run_single_pipeline is handed over as a value ({norm(_parent(deferred[0]))[:70]}): runs are queued up-front and the queued ones still execute after one has failed", where=f, node=deferred[0] if deferred else f.node)
     # lazily evaluated runs (generator handed to something that may stop early) are not accepted
     for c in rs:
         comp = [a for a in ancestors(c) if isinstance(a, (ast.GeneratorExp,))]
